@@ -472,6 +472,29 @@ func GenFrame(r *rand.Rand, t uint8, v uint8, o GenOpts) FrameIn {
 	return fi
 }
 
+// Periodic returns n bytes of a short random pattern, hex encoded.
+func Periodic(r *rand.Rand, n int) string {
+	p := 1 + r.IntN(3)
+	pat := vh.Bytes(r, p)
+	b := make([]byte, n)
+	for i := range b {
+		b[i] = pat[i%p]
+	}
+	return hex.EncodeToString(b)
+}
+
+// Boundary sets one string/bytes field of fi to a length at the WriteString /
+// PayloadMaxSize boundary (32766, 32767, 32768) or at a varint boundary of the
+// remaining length (around 16383).
+func Boundary(r *rand.Rand, fi *FrameIn) {
+	if len(fi.S) == 0 {
+		return
+	}
+	i := r.IntN(len(fi.S))
+	n := vh.Pick(r, 32766, 32767, 32767, 32768, 32768, 40000, 16300+r.IntN(120))
+	fi.S[i] = Periodic(r, n)
+}
+
 // GenVersion draws a protocol version: 0..LatestVersion+1 mostly, any byte sometimes.
 func GenVersion(r *rand.Rand) uint8 {
 	if r.IntN(12) == 0 {
